@@ -9,4 +9,6 @@ if [ ! -x build/pvfacts ] || [ tool/pvfacts.cc -nt build/pvfacts ]; then
 fi
 echo "pvfacts built: $(ls -la build/pvfacts | awk '{print $5}') bytes"
 # pvmutate: behaviour-preserving source rewriter used only by tool/refactor_test.sh (variant 00c); no check depends on it
-clang++ $(llvm-config-14 --cxxflags) -fno-rtti -O1 tool/pvmutate.cc -o build/pvmutate /usr/lib/llvm-14/lib/libclang-cpp.so.14 /usr/lib/llvm-14/lib/libLLVM-14.so 2>/dev/null || echo "pvmutate not built (optional)"
+if [ ! -x build/pvmutate ] || [ tool/pvmutate.cc -nt build/pvmutate ]; then
+  clang++ $(llvm-config-14 --cxxflags) -fno-rtti -O1 tool/pvmutate.cc -o build/pvmutate /usr/lib/llvm-14/lib/libclang-cpp.so.14 /usr/lib/llvm-14/lib/libLLVM-14.so 2>/dev/null || echo "pvmutate not built (optional)"
+fi
